@@ -57,7 +57,7 @@ class C12(Prop):
                 c["a"] = str(rng.choice([Fraction(1, 4), Fraction(1, 2), 2, 3, 8]))
                 c["b"] = str(rng.choice([-16, -1, 0, Fraction(1, 2), 5, 1024]))
             if rel == "wscale":
-                c["c"] = str(rng.choice([Fraction(1, 8), Fraction(1, 2), 2, 4, 1024]))
+                c["c"] = str(rng.choice([Fraction(1, 8), Fraction(1, 2), 2, 4, 1024, Fraction(1, 2**30), Fraction(1, 2**40), 2**30]))
             if rel == "containers":
                 c["y"] = [str(rng.randint(-5, 9)) for _ in range(n)]  # integers: also passed as int64 / list
                 if w is not None:
